@@ -200,6 +200,25 @@ def run(f, fixture, rep, cfg, tier):
                     rep.check(got == "buf[ser(self.metadata.header)]", "R2", "%s|signed-bytes" % fn, "the signer receives the serialised main header",
                               "the signer receives %s" % got[:200], c.loc())
 
+    # ---- R2: content, size and digest of a file entry are only ever set together (at construction) ----------
+    late = []
+    for b in f.body_list:
+        if b.derived:
+            continue
+        for bb in b.reachable():
+            for st in b.stmts(bb):
+                if st["k"] != "assign" or not st["lhs"]["p"]:
+                    continue
+                names = [p.get("n") for p in st["lhs"]["p"] if isinstance(p, dict) and "n" in p]
+                if names and names[-1] in ("content", "sha_checksum", "size") and "PackageFileEntry" in b.local_ty(st["lhs"]["l"]):
+                    late.append((b, st, names[-1]))
+    for (b, st, nm) in late:
+        rep.finding("R2", "%s|late-write|%s" % (fmt_key(b.path), nm),
+                    "%s assigns PackageFileEntry.%s after construction: content, size and digest can get out of step (the recorded file digest would describe other bytes)" % (b.path, nm),
+                    "%s:%s" % (b.file, st.get("line")))
+    if not late:
+        rep.ok("R2", "PackageFileEntry.{content,size,sha_checksum} are only set by the aggregate in add_data")
+
     # ---- R2: add_data ---------------------------------------------------------------------------
     ad = f.one("PackageBuilder::add_data")
     ta = TermBuilder(ad)
